@@ -113,7 +113,9 @@ func c16Stops(first, tracks string, r *core.Rand) []*gtfsrt.TripUpdate_StopTimeU
 		}
 		return u
 	}
-	ev := func(t int64) *gtfsrt.TripUpdate_StopTimeEvent { return &gtfsrt.TripUpdate_StopTimeEvent{Time: rgen.I64(t)} }
+	ev := func(t int64) *gtfsrt.TripUpdate_StopTimeEvent {
+		return &gtfsrt.TripUpdate_StopTimeEvent{Time: rgen.I64(t)}
+	}
 	u0 := mk(0)
 	const ts = c16FeedTs
 	switch first {
@@ -183,6 +185,28 @@ func c16Stops(first, tracks string, r *core.Rand) []*gtfsrt.TripUpdate_StopTimeU
 		u1.Departure = ev(ts - 500)
 	}
 	return append(out, u1)
+}
+
+// c16PreVehicles are the vehicle descriptors an NYCT entity may already carry on the wire. For an assigned trip the
+// statement fixes the linked vehicle's id (the train id) whatever was there before; label and plate are not asserted.
+var c16PreVehicles = []string{"none", "none", "other-id", "same-id", "label-only", "plate-only", "id+label", "empty-descriptor"}
+
+func c16PreVehicle(kind, train, other string) *gtfsrt.VehicleDescriptor {
+	switch kind {
+	case "other-id":
+		return &gtfsrt.VehicleDescriptor{Id: rgen.S(other)}
+	case "same-id":
+		return &gtfsrt.VehicleDescriptor{Id: rgen.S(train)}
+	case "label-only":
+		return &gtfsrt.VehicleDescriptor{Label: rgen.S("label of " + other)}
+	case "plate-only":
+		return &gtfsrt.VehicleDescriptor{LicensePlate: rgen.S("plate of " + other)}
+	case "id+label":
+		return &gtfsrt.VehicleDescriptor{Id: rgen.S(other), Label: rgen.S("label of " + other)}
+	case "empty-descriptor":
+		return &gtfsrt.VehicleDescriptor{}
+	}
+	return nil
 }
 
 func c16Stale(first string) bool {
@@ -312,14 +336,16 @@ func c16Table(c *core.Ctx, i int) {
 	for oi, opts := range c16OptCombos {
 		d := &gtfsrt.TripDescriptor{TripId: rgen.S(id), RouteId: rgen.S("A"), StartTime: rgen.S(wireStart), StartDate: rgen.S("20231114")}
 		c16SetNyct(d, cell.assigned, cell.dir, "TRAIN 7")
-		tu := &gtfsrt.TripUpdate{Trip: d, StopTimeUpdate: c16Stops(cell.first, cell.tracks, c.R)}
+		pre := c16PreVehicles[c.R.Intn(len(c16PreVehicles))]
+		tu := &gtfsrt.TripUpdate{Trip: d, StopTimeUpdate: c16Stops(cell.first, cell.tracks, c.R), Vehicle: c16PreVehicle(pre, "TRAIN 7", "car-4471")}
 		m := &gtfsrt.FeedMessage{Header: &gtfsrt.FeedHeader{GtfsRealtimeVersion: rgen.S("1.0"), Timestamp: rgen.U64(c16FeedTs)},
 			Entity: []*gtfsrt.FeedEntity{{Id: rgen.S("x"), TripUpdate: tu}}}
 		rt, err := gtfs.ParseRealtime(rgen.Marshal(m), &gtfs.ParseRealtimeOptions{Extension: nycttrips.Extension(opts)})
 		c.Eval(1)
-		sig := fmt.Sprintf("assigned=%s dir=%s tracks=%s first=%s id=%s", cell.assigned, cell.dir, cell.tracks, cell.first, cell.id)
-		c.Shape(fmt.Sprintf("%s opts=%d", sig, oi))
+		sig := fmt.Sprintf("assigned=%s dir=%s tracks=%s first=%s id=%s wire-vehicle=%s", cell.assigned, cell.dir, cell.tracks, cell.first, cell.id, pre)
+		c.Shape(fmt.Sprintf("assigned=%s dir=%s tracks=%s first=%s id=%s opts=%d", cell.assigned, cell.dir, cell.tracks, cell.first, cell.id, oi))
 		c.Feature("table:first=" + cell.first)
+		c.Feature("table:assigned=" + cell.assigned + ",wire-vehicle=" + pre)
 		detail := func() any {
 			return map[string]any{"cell": sig, "options": fmt.Sprintf("%+v", opts), "message": prototextOf(m)}
 		}
@@ -362,8 +388,8 @@ func c16Table(c *core.Ctx, i int) {
 			} else if len(rt.Vehicles) != 1 || rt.Vehicles[0].Trip == nil || rt.Vehicles[0].Trip.ID.ID != id {
 				c.Violationf("C16|assigned-vehicle-backlink", detail(), "the train's vehicle does not link back to the trip")
 			}
-		} else if t.Vehicle != nil {
-			c.Violationf("C16|unassigned-trip-has-vehicle", detail(), "an unassigned trip got a vehicle")
+		} else if t.Vehicle != nil && pre == "none" {
+			c.Violationf("C16|unassigned-trip-has-vehicle", detail(), "an unassigned trip without a vehicle descriptor on the wire got a vehicle")
 		}
 		for k := range t.StopTimeUpdates {
 			want := c16ExpectTrack(cell.tracks, k)
@@ -395,14 +421,17 @@ func c16VehiclePositions(c *core.Ctx) {
 		dir := core.Pick(r, c16Dirs)
 		d := &gtfsrt.TripDescriptor{TripId: rgen.S(id), RouteId: rgen.S("A"), StartDate: rgen.S("20231114")}
 		c16SetNyct(d, assigned, dir, "TRAIN 9")
-		vp := &gtfsrt.VehiclePosition{Trip: d, StopId: rgen.S("A20N"), Timestamp: rgen.U64(c16FeedTs)}
+		pre := core.Pick(r, c16PreVehicles)
+		vp := &gtfsrt.VehiclePosition{Trip: d, StopId: rgen.S("A20N"), Timestamp: rgen.U64(c16FeedTs), Vehicle: c16PreVehicle(pre, "TRAIN 9", "car-77")}
 		m := &gtfsrt.FeedMessage{Header: &gtfsrt.FeedHeader{GtfsRealtimeVersion: rgen.S("1.0"), Timestamp: rgen.U64(c16FeedTs)},
 			Entity: []*gtfsrt.FeedEntity{{Id: rgen.S("v"), Vehicle: vp}}}
 		opts := core.Pick(r, c16OptCombos)
 		rt, err := gtfs.ParseRealtime(rgen.Marshal(m), &gtfs.ParseRealtimeOptions{Extension: nycttrips.Extension(opts)})
 		c.Eval(1)
-		c.Shape(fmt.Sprintf("vp assigned=%s dir=%s", assigned, dir))
-		detail := func() any { return map[string]any{"message": prototextOf(m), "options": fmt.Sprintf("%+v", opts)} }
+		c.Shape(fmt.Sprintf("vp assigned=%s dir=%s wire-vehicle=%s", assigned, dir, pre))
+		detail := func() any {
+			return map[string]any{"message": prototextOf(m), "options": fmt.Sprintf("%+v", opts), "wire_vehicle": pre}
+		}
 		if err != nil || len(rt.Trips) != 1 || len(rt.Vehicles) != 1 {
 			c.Violationf("C16|vp-trip-or-vehicle-missing", detail(), "vehicle position with NYCT descriptor: want 1 trip and 1 vehicle (err=%v)", err)
 			continue
@@ -525,6 +554,10 @@ func c16Mixed(c *core.Ctx) {
 		d := &gtfsrt.TripDescriptor{TripId: rgen.S(id), RouteId: rgen.S(route), StartDate: rgen.S("20231114")}
 		c16SetNyct(d, cell.assigned, cell.dir, fmt.Sprintf("TRAIN-%d", k))
 		tu := &gtfsrt.TripUpdate{Trip: d, StopTimeUpdate: c16Stops(cell.first, cell.tracks, r)}
+		if cell.assigned == "true" {
+			// an assigned trip may already carry a vehicle descriptor on the wire; the train id replaces its id
+			tu.Vehicle = c16PreVehicle(core.Pick(r, c16PreVehicles), fmt.Sprintf("TRAIN-%d", k), fmt.Sprintf("nyct-wire-car-%d", k))
+		}
 		pos := r.Intn(len(mixed.Entity) + 1)
 		mixed.Entity = append(mixed.Entity, nil)
 		copy(mixed.Entity[pos+1:], mixed.Entity[pos:])
@@ -671,7 +704,7 @@ func c16Mixed(c *core.Ctx) {
 			if ne.cell.dir == "NORTH" && t.ID.DirectionID != gtfs.DirectionID_False || ne.cell.dir == "SOUTH" && t.ID.DirectionID != gtfs.DirectionID_True {
 				c.Violationf("C16|mixed-direction", md(), "NYCT trip %s: %s gives %v", ne.id, ne.cell.dir, t.ID.DirectionID)
 			}
-			if ne.cell.assigned == "true" && (t.Vehicle == nil || t.Vehicle.ID == nil || len(t.Vehicle.ID.ID) < 6 || t.Vehicle.ID.ID[:6] != "TRAIN-") {
+			if ne.cell.assigned == "true" && (t.Vehicle == nil || t.Vehicle.ID == nil || t.Vehicle.ID.ID != "TRAIN-"+ne.id[len(ne.id)-1:]) {
 				c.Violationf("C16|mixed-assigned-vehicle", md(), "NYCT trip %s is assigned but not linked to its train", ne.id)
 			}
 			for k := range t.StopTimeUpdates {
